@@ -3,6 +3,7 @@
 package llmsetup
 
 import (
+	"io/fs"
 	"os"
 	"path/filepath"
 	"strings"
@@ -34,7 +35,9 @@ var (
 	fsMode    = map[string]int{}
 	fhName    = map[*os.File]string{}
 	fsTemps   = map[string]bool{}
-	fsFaults  int
+	// fsTempBase[t] is the (simple) file name CreateTemp chose for temp path t.
+	fsTempBase = map[string]string{}
+	fsFaults   int
 	// fsLiveTemps counts temp files created by os.CreateTemp that still exist under their temp name.
 	fsLiveTemps int
 )
@@ -120,6 +123,7 @@ func model_os_CreateTemp(dir, pattern string) (*os.File, error) {
 	fsContent[t] = nil
 	fsMode[t] = 0o600
 	fsTemps[t] = true
+	fsTempBase[t] = base
 	fsLiveTemps++
 	fhName[f] = t
 	vs.CrashPoint("CreateTemp")
@@ -246,9 +250,10 @@ func contract_InstallFile(targetDir string, fileName string, content []byte) (re
 	}))
 	vs.Ensures("creates_only_under_target", vs.ForallString(func(q string) bool {
 		return vs.Implies(vs.Old(fsKind[q]) == kindAbsent && fsKind[q] != kindAbsent,
-			q == finalPath(targetDir, fileName) || fsTemps[q] || (fsKind[q] == kindDir && (q == targetDir || pathUnder(q, targetDir))))
+			q == finalPath(targetDir, fileName) || (fsTemps[q] && q == pathJoin(targetDir, fsTempBase[q]) && simpleName(fsTempBase[q])) ||
+				(fsKind[q] == kindDir && (q == targetDir || pathUnder(q, targetDir))))
 	}))
-	vs.Modifies(fsKind, fsContent, fsMode, fhName, fsTemps, fsFaults, fsLiveTemps)
+	vs.Modifies(fsKind, fsContent, fsMode, fhName, fsTemps, fsTempBase, fsFaults, fsLiveTemps)
 	vs.Allocates()
 	return
 }
@@ -387,4 +392,148 @@ func contract_GetAgent(name string) (result Agent, ok bool) {
 //kvc:loop GetAgent "for _, a := range agents"
 func inv_GetAgent(name string, kvcIdx int) {
 	vs.Invariant("none_so_far", vs.Forall(kvcIdx, func(i int) bool { return agents[i] == nil || agentName(agents[i]) != name }))
+}
+
+// ---------------------------------------------------------------------------
+// Install: containment and result path (C16)
+// ---------------------------------------------------------------------------
+
+// gInstallRoot is the skill directory of the Install call in progress (ghost).
+var gInstallRoot string
+
+//kvc:ghost Install before "err = fs.WalkDir"
+func ghostInstallRoot(skillPath string) { gInstallRoot = skillPath }
+
+//kvc:pure pathDir
+func pathDir(p string) string { return filepath.Dir(p) }
+
+//kvc:pure pathRel
+func pathRel(base, p string) string { r, _ := filepath.Rel(base, p); return r }
+
+// cleanRel: a relative path without "..", as produced by walking an embedded tree.
+//
+//kvc:pure cleanRel
+func cleanRel(p string) bool { return filepath.IsLocal(p) || p == "." }
+
+//kvc:model path/filepath.Dir
+func model_filepath_Dir(p string) string { return pathDir(p) }
+
+//kvc:model path/filepath.Base
+func model_filepath_Base(p string) string { return pathBase(p) }
+
+//kvc:model path/filepath.Rel
+func model_filepath_Rel(base, target string) (string, error) {
+	if vs.NondetBool() {
+		return "", vs.SomeError()
+	}
+	return pathRel(base, target), nil
+}
+
+// Everything installed below a/d (d a clean relative directory) is below a, and the ancestors of a/d
+// are a itself, ancestors of a, or directories below a.
+//
+//kvc:axiom
+func axiomJoinStaysBelow() bool {
+	return vs.ForallString3(func(a, d, n string) bool {
+		return vs.Implies(cleanRel(d) && simpleName(n), pathUnder(a, pathJoin(pathJoin(a, d), n)))
+	})
+}
+
+//kvc:axiom
+func axiomAncestorsOfJoin() bool {
+	return vs.ForallString3(func(a, d, q string) bool {
+		return vs.Implies(cleanRel(d) && (q == pathJoin(a, d) || pathUnder(q, pathJoin(a, d))), q == a || pathUnder(q, a) || pathUnder(a, q))
+	})
+}
+
+// ghostDirEntry is what the model of fs.WalkDir hands to the callback.
+type ghostDirEntry struct{ dir bool }
+
+func (g *ghostDirEntry) Name() string               { return "" }
+func (g *ghostDirEntry) IsDir() bool                { return g.dir }
+func (g *ghostDirEntry) Type() fs.FileMode          { return 0 }
+func (g *ghostDirEntry) Info() (fs.FileInfo, error) { return nil, nil }
+
+// embeddedContent: the bytes of an embedded file (uninterpreted).
+//
+//kvc:pure embeddedContent
+func embeddedContent(fsys fs.FS, name string) []byte {
+	b, _ := fs.ReadFile(fsys, name)
+	return b
+}
+
+//kvc:model io/fs.Stat
+func model_fs_Stat(fsys fs.FS, name string) (fs.FileInfo, error) {
+	if vs.NondetBool() {
+		return nil, vs.SomeError()
+	}
+	return &ghostFileInfo{dir: true}, nil
+}
+
+//kvc:model io/fs.ReadFile
+func model_fs_ReadFile(fsys fs.FS, name string) ([]byte, error) {
+	if vs.NondetBool() {
+		return nil, vs.SomeError()
+	}
+	return embeddedContent(fsys, name), nil
+}
+
+// Trusted model of fs.WalkDir over an embedded tree: the callback is invoked for an arbitrary
+// sequence of entries below root; an error from the callback stops the walk and is returned
+// (the callback never returns fs.SkipDir / fs.SkipAll). For regular files below root the name
+// relative to root is a clean relative path whose last element is a real file name that does not
+// look like a temp file (checked against the real embedded tree by the static side check).
+//
+//kvc:model io/fs.WalkDir
+func model_fs_WalkDir(fsys fs.FS, root string, fn fs.WalkDirFunc) error {
+	for vs.NondetBool() {
+		p := vs.NondetString()
+		isDir := vs.NondetBool()
+		vs.Assume(isDir || (cleanRel(pathDir(pathRel(root, p))) && simpleName(pathBase(pathRel(root, p))) &&
+			!strings.HasPrefix(pathBase(pathRel(root, p)), ".tmp-")))
+		if err := fn(p, &ghostDirEntry{dir: isDir}, nil); err != nil {
+			return err
+		}
+	}
+	return nil
+}
+
+// outsideUntouched: everything that existed when Install was entered and is not below the skill
+// directory is exactly what it was.
+func outsideUntouched(root string) bool {
+	return vs.ForallString(func(q string) bool {
+		return vs.Implies(vs.Old(fsKind[q]) != kindAbsent && !pathUnder(root, q), unchangedEntry(q))
+	})
+}
+
+// createdOnlyBelowOrAbove: new entries are below the skill directory, or are (missing parent)
+// directories on the way down to it.
+func createdOnlyBelowOrAbove(root string) bool {
+	return vs.ForallString(func(q string) bool {
+		return vs.Implies(vs.Old(fsKind[q]) == kindAbsent && fsKind[q] != kindAbsent,
+			pathUnder(root, q) || (fsKind[q] == kindDir && (q == root || pathUnder(q, root))))
+	})
+}
+
+//kvc:loop io/fs.WalkDir "for vs.NondetBool()"
+func inv_WalkDir_containment() {
+	vs.Invariant("outside_untouched", outsideUntouched(gInstallRoot))
+	vs.Invariant("created_only_below_or_above", createdOnlyBelowOrAbove(gInstallRoot))
+}
+
+func skillRoot(customPath string, userFlag bool, agent Agent) string {
+	return pathJoin(resolvedBase(customPath, userFlag, agent), agentDirName(agent))
+}
+
+//kvc:contract Install
+func contract_Install(agent Agent, customPath string, userFlag bool) (result string, err error) {
+	vs.Requires(agent != nil)
+	vs.Ensures("result_is_documented_location", vs.Implies(err == nil, result == skillRoot(customPath, userFlag, agent)))
+	vs.Ensures("base_is_a_file_refused", vs.Implies(vs.Old(fsKind[resolvedBase(customPath, userFlag, agent)]) == kindFile,
+		err != nil && vs.ForallString(func(q string) bool { return unchangedEntry(q) })))
+	vs.Ensures("outside_untouched", outsideUntouched(skillRoot(customPath, userFlag, agent)))
+	vs.Ensures("created_only_below_or_above", createdOnlyBelowOrAbove(skillRoot(customPath, userFlag, agent)))
+	vs.Modifies(fsKind, fsContent, fsMode, fhName, fsTemps, fsTempBase, fsFaults, fsLiveTemps, gInstallRoot)
+	vs.Allocates()
+	return
 }
